@@ -42,7 +42,15 @@ Tiny13b == [Tiny13 EXCEPT !.transition_list =
                    !.players = PList(<<PStr("Probabilistic"), PStr("Probabilistic"), PStr("Probabilistic"), PStr("Probabilistic")>>),
                    !.final_states = PList(<<PInt(3)>>)]
 
+\* every state reaches the goal with positive probability, and states 4, 5 are orphans
+\* (nothing points to them): pruning clears them, the unpruned run must not
+Orphan ==
+    [n |-> 5, owner |-> <<P1, PR, PR, PR, P2>>, reward |-> <<1, 2, 0, 6, 3>>,
+     tr |-> << <<Tr("x", 0, 2), Tr("y", 0, 3)>>, <<Tr("", 1, 3), Tr("", 1, 2)>>, <<Tr("", 1, 3)>>,
+               <<Tr("", 1, 5)>>, <<Tr("u", 0, 3), Tr("v", 0, 2)>> >>, final |-> <<3>>]
+
 Pool == << [kind |-> "ok",        tg |-> Tagged(Simple)],
+           [kind |-> "ok",        tg |-> Tagged(Orphan)],
            [kind |-> "ok",        tg |-> Tiny13b],
            [kind |-> "ok",        tg |-> Tagged(TwinA)],
            [kind |-> "ok",        tg |-> Tagged(TwinB)],
